@@ -38,7 +38,8 @@ type Program struct {
 	RenameFails bool `json:"rename_fails_exdev,omitempty"`
 }
 
-var components = []string{"a", "b", "c.txt", ".h", "d.txt"}
+// ("ab" begins with "a": a sibling whose name extends another one is neither that item nor inside it)
+var components = []string{"a", "b", "c.txt", ".h", "d.txt", "ab"}
 
 func genPath(t *rapid.T, label string, m *Model) string {
 	// construction: half of the time an existing entry (or a child-to-be of an existing directory)
@@ -76,6 +77,9 @@ func genCall(t *rapid.T, label string, m *Model) Call {
 	c.A = genPath(t, label+"-a", m)
 	if isTwoPath(c.Op) {
 		c.B = genPath(t, label+"-b", m)
+		if c.A != "" && rapid.IntRange(0, 7).Draw(t, label+"-extends") == 0 {
+			c.B = c.A + "b" // the destination's name extends the source's
+		}
 		if rapid.IntRange(0, 4).Draw(t, label+"-trail") == 0 {
 			c.B += "/"
 		}
